@@ -126,6 +126,10 @@ def recordWatch (fn : Bytes → Bytes) (v : Val) (cfg : Cfg) (s : St) :
     (St × Except Err Key) × Option (Except Err (Option Val)) :=
   (record fn v cfg s, if hasObject (key fn v) s then some (get (key fn v) (serialize fn v s)) else none)
 
+/-- `record_value` of a FileCache value whose `serialize()` fails while writing its file (ENOSPC right after the file was
+opened with "wb"): the file exists, empty; nothing else happened (rows and store are touched only later). -/
+def faultFc (fn : Bytes → Bytes) (p : Bytes) (s : St) : St := { s with fc := (fn p, []) :: dropKey (fn p) s.fc }
+
 /-! mutations of the environment -/
 def dropStore (k : Key) (s : St) : St := { s with store := s.store.map (dropKey k) }
 def dropFc (f : Bytes) (s : St) : St := { s with fc := dropKey f s.fc }
